@@ -12,12 +12,16 @@ character codes of 1-character strings, the empty string being 0) or `V.nan`.
 IEEE rounding is not modelled.  Arrays are flat lists (masking is elementwise; the
 N-d shape plays no role, subspacing is a gather by flat positions).
 
-The model mirrors the code *after* the proposed patches
-  fixes/C07-apply-masking-nan.patch           (NaN fill values in `Data.apply_masking`)
-  fixes/C07-field-apply-masking-copy.patch    (`f._apply_masking_constructs()`)
-  fixes/C07-unsigned-only-signed-int.patch    (`_Unsigned` view only for signed integers)
-  fixes/C07-default-fill-string.patch         (reader default fill value of string variables)
-and keeps the unpatched behaviour as `…Old`.
+The model mirrors /repo HEAD - which contains the four C07 repairs
+  f62b33c  (NaN fill values in `Data.apply_masking`)
+  ebd1f5d  (`f._apply_masking_constructs()`)
+  f8e6b8c  (`_Unsigned` view only for signed integers)
+  32b9e20  (reader default fill value of string variables)
+whose earlier behaviour is kept as `…Old` - plus the proposed patch
+  fixes/C07-apply-masking-vector-missing-value.patch  (a vector `missing_value` gives several
+                                                       fill values in `apply_masking`)
+whose unpatched (HEAD) behaviour is kept as `fillsOfOld` / `propsApplyMaskingVecOld`.
+Data types of unpacked data: Cfdm/Model/MaskDType.lean.
 -/
 namespace Cfdm.Mask
 
@@ -158,12 +162,12 @@ def safecast (dt : DType) : Attr → Option (V × List V)
 /-- `attributes.get("_Unsigned") in ("true", "True")`. -/
 def unsignedAttr (a : Attrs) : Bool := a.unsigned == some "true" || a.unsigned == some "True"
 
-/-- `__getitem__`, patched: the unsigned view is taken only when unpacking, only when
+/-- `__getitem__` (since f8e6b8c): the unsigned view is taken only when unpacking, only when
 `_Unsigned` says so and only for signed integer data. -/
 def unsignedView (dt : DType) (a : Attrs) (unpackOn : Bool) : Bool :=
   unpackOn && unsignedAttr a && dt.kind == .int
 
-/-- `__getitem__` as it is in the repository: any data type is re-viewed. -/
+/-- `__getitem__` before f8e6b8c: any data type is re-viewed. -/
 def unsignedViewOld (_dt : DType) (a : Attrs) (unpackOn : Bool) : Bool :=
   unpackOn && unsignedAttr a
 
@@ -384,7 +388,7 @@ structure Props where
 
 /-- The reader with `mask=False`: properties are the file attributes, and
 `_set_default_FillValue` records the default fill value when there is no `_FillValue`
-(patched: also for string variables, where the repository code raises). -/
+(since 32b9e20 also for string variables). -/
 def readerProps (dt : DType) (a : Attrs) : Props :=
   { fillValue := match a.fillValue with
       | some x => some x
@@ -394,7 +398,7 @@ def readerProps (dt : DType) (a : Attrs) : Props :=
     validMax := a.validMax
     validRange := a.validRange }
 
-/-- `_set_default_FillValue` as in the repository: `default_fillvals[dtype.str[-2:]]` has
+/-- `_set_default_FillValue` before 32b9e20: `default_fillvals[dtype.str[-2:]]` has
 no entry for a netCDF string variable (`str` / object dtype), so the `mask=False` read of a
 string variable without `_FillValue` raises (AttributeError or KeyError by backend). -/
 def readerPropsOld (dt : DType) (a : Attrs) : Except String Props :=
@@ -416,10 +420,10 @@ def cmpWith (f : V → V → Bool) (ordering : Bool) (x : AttrVal) (arr : List (
 
 def orMask (a b : MaskArr) : MaskArr := List.zipWith (· || ·) a b
 
-/-- `array == fill_value`, patched to treat a NaN fill value as netCDF does. -/
+/-- `array == fill_value`, with a NaN fill value treated as netCDF does (since f62b33c). -/
 def fillEq (d m : V) : Bool := matchFill m d
 
-/-- `array == fill_value` as in the repository (NaN never matches). -/
+/-- `array == fill_value` before f62b33c (NaN never matches). -/
 def fillEqOld (d m : V) : Bool := V.eq d m
 
 /-- `mask = m` / `mask |= m`. -/
@@ -472,19 +476,78 @@ def dataApplyMaskingWith (feq : V → V → Bool) (fillValues : List AttrVal)
   | .error e => .error e
   | .ok (vmin, vmax) => dataApplyCore feq fillValues vmin vmax arr
 
+/-- The `fill_values` argument of `Data.apply_masking`: `None`, a bool, a sequence of
+fill values, or something that is not a sequence (a number, a `str`). -/
+inductive FillArg where
+  | none_
+  | flag (b : Bool)
+  | seq (l : List AttrVal)
+  | notSeq
+  deriving DecidableEq, Repr
+
+/-- `fill_values=None` means `False`; `True` means the data's own fill value, if it has
+one; anything that is not a sequence (or is a `str`) is a TypeError. -/
+def resolveFills (dataFill : Attr) : FillArg → Except String (List AttrVal)
+  | .none_ => .ok []
+  | .flag false => .ok []
+  | .flag true => .ok dataFill.toList
+  | .seq l => .ok l
+  | .notSeq => .error "TypeError"
+
+/-- `Data.apply_masking(fill_values, valid_min, valid_max, valid_range)` called directly:
+the `valid_range` checks come first, then the `fill_values` checks. -/
+def dataApplyMasking (dataFill : Attr) (arg : FillArg) (vmin vmax vrange : Attr)
+    (arr : List (Option V)) : Except String (List (Option V)) :=
+  match splitRange vmin vmax vrange with
+  | .error e => .error e
+  | .ok (vmin, vmax) =>
+    match resolveFills dataFill arg with
+    | .error e => .error e
+    | .ok fills => dataApplyCore fillEq fills vmin vmax arr
+
+/-- Specification of `Data.apply_masking` for scalar criteria, on ONE element: an element
+that is already masked stays masked; an unmasked one becomes masked iff it equals a fill
+value (NaN matches NaN), is below `valid_min` or above `valid_max`. -/
+def specApplyElem (fills : List V) (vmin vmax : Option V) (o : Option V) : Option V :=
+  match o with
+  | none => none
+  | some d =>
+    if (∃ m ∈ fills, matchFill m d = true) ∨ (∃ lo, vmin = some lo ∧ V.lt d lo = true)
+        ∨ (∃ hi, vmax = some hi ∧ V.gt d hi = true)
+    then none else some d
+
+/-- `fill_values.extend(x if np.ndim(x) else (x,))`: a vector-valued property gives one
+fill value per element (patched). -/
+def fillList : Attr → List AttrVal
+  | none => []
+  | some (.vals hd tl) => (hd :: tl).map (fun v => AttrVal.vals v [])
+  | some .text => [.text]
+
+/-- The fill values `PropertiesData.apply_masking` hands to `Data.apply_masking`:
+`_FillValue` then `missing_value`, every element of a vector on its own (patched). -/
+def fillsOf (p : Props) : List AttrVal := fillList p.fillValue ++ fillList p.missingValue
+
+/-- As at /repo HEAD: `fill_values.append(x)` - a vector is ONE fill value. -/
+def fillsOfOld (p : Props) : List AttrVal := [p.fillValue, p.missingValue].filterMap id
+
 /-- `PropertiesData.apply_masking`: `_FillValue` then `missing_value` are the fill
 values; `valid_range` together with `valid_min`/`valid_max` is an error. -/
-def propsApplyMaskingWith (feq : V → V → Bool) (p : Props) (arr : List (Option V)) :
-    Except String (List (Option V)) :=
-  let fills := [p.fillValue, p.missingValue].filterMap id
+def propsApplyMaskingWith (feq : V → V → Bool) (fl : Props → List AttrVal) (p : Props)
+    (arr : List (Option V)) : Except String (List (Option V)) :=
   if p.validRange.isSome && (p.validMin.isSome || p.validMax.isSome) then .error "ValueError"
-  else dataApplyMaskingWith feq fills p.validMin p.validMax p.validRange arr
+  else dataApplyMaskingWith feq (fl p) p.validMin p.validMax p.validRange arr
 
 def propsApplyMasking (p : Props) (arr : List (Option V)) : Except String (List (Option V)) :=
-  propsApplyMaskingWith fillEq p arr
+  propsApplyMaskingWith fillEq fillsOf p arr
 
+/-- Before f62b33c: `array == fill_value` only (a NaN fill value masks nothing). -/
 def propsApplyMaskingOld (p : Props) (arr : List (Option V)) : Except String (List (Option V)) :=
-  propsApplyMaskingWith fillEqOld p arr
+  propsApplyMaskingWith fillEqOld fillsOf p arr
+
+/-- /repo HEAD (without fixes/C07-apply-masking-vector-missing-value.patch): a vector
+`missing_value` is compared as a whole (`array == vector`). -/
+def propsApplyMaskingVecOld (p : Props) (arr : List (Option V)) : Except String (List (Option V)) :=
+  propsApplyMaskingWith fillEq fillsOfOld p arr
 
 /-- `PropertiesDataBounds.apply_masking`, bounds part: each property of the bounds
 falls back to the parent's property. -/
@@ -497,8 +560,7 @@ def inheritProps (b c : Props) : Props :=
 
 def boundsApplyMasking (b c : Props) (arr : List (Option V)) : Except String (List (Option V)) :=
   let p := inheritProps b c
-  let fills := [p.fillValue, p.missingValue].filterMap id
-  dataApplyMaskingWith fillEq fills p.validMin p.validMax p.validRange arr
+  dataApplyMaskingWith fillEq (fillsOf p) p.validMin p.validMax p.validRange arr
 
 /-! ## Field level -/
 
@@ -562,7 +624,7 @@ def conApplyMasking (c : Con) : Except String Con := do
     pure { c with data := d, bdata := some b }
   | _, _ => pure { c with data := d }
 
-/-- `Field.apply_masking(inplace)`, patched.  Returns (receiver afterwards, returned field);
+/-- `Field.apply_masking(inplace)` (since ebd1f5d).  Returns (receiver afterwards, returned field);
 with `inplace=True` the receiver *is* the result. -/
 def fieldApplyMasking (inplace : Bool) (s : FieldState) : Except String (FieldState × FieldState) := do
   let d ← propsApplyMasking s.props s.data
@@ -570,7 +632,7 @@ def fieldApplyMasking (inplace : Bool) (s : FieldState) : Except String (FieldSt
   let r : FieldState := { s with data := d, cons := cs }
   pure (if inplace then r else s, r)
 
-/-- `Field.apply_masking(inplace)` as in the repository: the metadata constructs of
+/-- `Field.apply_masking(inplace)` before ebd1f5d: the metadata constructs of
 `self` are masked, whichever field is returned. -/
 def fieldApplyMaskingOld (inplace : Bool) (s : FieldState) : Except String (FieldState × FieldState) := do
   let d ← propsApplyMasking s.props s.data
@@ -596,12 +658,19 @@ def rangeOK (dt : DType) (a : Attrs) : Bool :=
   | some (.vals lo [hi]) => dt.fits lo && dt.fits hi && a.validMin.isNone && a.validMax.isNone
   | _ => false
 
+/-- Absent, or a scalar or vector of values that the variable's type holds exactly. -/
+def vectorSafe (dt : DType) : Attr → Bool
+  | none => true
+  | some (.vals hd tl) => (hd :: tl).all dt.fits
+  | some .text => false
+
 /-- Exactly what `PropertiesData.apply_masking` needs in order to agree with the read:
-every masking attribute is a safely castable scalar (`valid_range`: a safe pair, alone);
+every masking attribute is a safely castable scalar (`missing_value`: a safe scalar or
+vector; `valid_range`: a safe pair, alone);
 no valid-range attribute on character data; and, when the read unpacks, the data were
 not transformed (no `scale_factor`/`add_offset`, no unsigned view). -/
 def ApplyOK (dt : DType) (a : Attrs) (unpackOn : Bool) : Bool :=
-  scalarSafe dt a.fillValue && scalarSafe dt a.missingValue
+  scalarSafe dt a.fillValue && vectorSafe dt a.missingValue
   && scalarSafe dt a.validMin && scalarSafe dt a.validMax && rangeOK dt a
   && (!dt.isString || (a.validMin.isNone && a.validMax.isNone && a.validRange.isNone))
   && (!unpackOn || (a.scaleFactor.isNone && a.addOffset.isNone && !unsignedView dt a true))
